@@ -17,22 +17,23 @@ import (
 // top-level evaluation, successful or not.
 
 type HistOp struct {
-	Entry      string      `json:"entry"`
-	Forms      []*Node     `json:"forms,omitempty"`
-	Fun        string      `json:"fun,omitempty"` // "pkg:name" for FunCall entries
-	Budget     int64       `json:"budget,omitempty"`
-	CancelAt   int64       `json:"cancel_at,omitempty"`
-	Faults     []FaultSpec `json:"faults,omitempty"`
-	MaxPhys    int         `json:"max_phys,omitempty"`
-	MaxNest    int         `json:"max_nest,omitempty"`
-	MaxTail    int         `json:"max_tail,omitempty"`
-	MaxAlloc   int         `json:"max_alloc,omitempty"`
-	Chunk      int         `json:"chunk,omitempty"`
-	ReadFailAt int         `json:"read_fail_at,omitempty"`
+	Entry        string      `json:"entry"`
+	Forms        []*Node     `json:"forms,omitempty"`
+	Fun          string      `json:"fun,omitempty"` // "pkg:name" for FunCall entries
+	Budget       int64       `json:"budget,omitempty"`
+	CancelAt     int64       `json:"cancel_at,omitempty"`
+	Faults       []FaultSpec `json:"faults,omitempty"`
+	MaxPhys      int         `json:"max_phys,omitempty"`
+	MaxNest      int         `json:"max_nest,omitempty"`
+	MaxTail      int         `json:"max_tail,omitempty"`
+	MaxAlloc     int         `json:"max_alloc,omitempty"`
+	Chunk        int         `json:"chunk,omitempty"`
+	ReadFailAt   int         `json:"read_fail_at,omitempty"`
+	StderrFailAt int         `json:"stderr_fail_at,omitempty"` // the n-th write to Runtime.Stderr fails
 }
 
 func (o HistOp) faultFree() bool {
-	return o.Budget == 0 && o.CancelAt == 0 && len(o.Faults) == 0 && o.MaxPhys == 0 && o.MaxNest == 0 && o.MaxTail == 0 && o.MaxAlloc == 0 && o.ReadFailAt == 0
+	return o.StderrFailAt == 0 && o.Budget == 0 && o.CancelAt == 0 && len(o.Faults) == 0 && o.MaxPhys == 0 && o.MaxNest == 0 && o.MaxTail == 0 && o.MaxAlloc == 0 && o.ReadFailAt == 0
 }
 
 type HistCase struct {
@@ -157,7 +158,7 @@ func (historyEngine) Gen(r *Rand, tier string) any {
 			continue
 		default:
 			o := GenOpts{Swallow: r.Chance(2, 3), Errors: r.Chance(1, 3), LoadStr: r.Chance(2, 3), Macros: r.Chance(1, 3),
-				Callbacks: r.Chance(1, 2), FP: true, Packages: true, Budget: r.Range(20, 90), MaxFuel: r.Range(2, 5)}
+				Callbacks: r.Chance(1, 2), FP: true, Packages: true, Stderr: r.Chance(1, 3), Budget: r.Range(20, 90), MaxFuel: r.Range(2, 5)}
 			g := NewPGen(r.Fork(), o)
 			g.fpN = i * 40
 			g.symN = i * 1000
@@ -251,6 +252,9 @@ func (historyEngine) Gen(r *Rand, tier string) any {
 		default:
 			op.MaxAlloc = r.Range(1, 4)
 		}
+		if len(op.Forms) > 0 && r.Chance(1, 10) && strings.Contains(Src(op.Forms), "debug-") {
+			op.StderrFailAt = r.Range(1, 3)
+		}
 		if op.Entry == "Load" || op.Entry == "LoadContext" {
 			op.Chunk = r.Pick([]int{1, 1, 1}) * r.Range(1, 9)
 			if r.Chance(1, 6) {
@@ -271,7 +275,11 @@ func histFaultsFrom(r *Rand, n int, avail []int) []FaultSpec {
 		} else {
 			f.FP = 500 + r.Range(1, 12)
 		}
-		switch r.Pick([]int{5, 4, 1}) {
+		w := []int{5, 4, 1}
+		if n > 1 && i == 0 {
+			w = []int{9, 1, 0} // the first of two faults should be survivable, or the second is never reached
+		}
+		switch r.Pick(w) {
 		case 0:
 			f.Kind = "error"
 			f.Cond = PickStr(r, []string{"e1", "my-error", "sim-fault"})
@@ -441,6 +449,7 @@ func (historyEngine) Run(ci any, st *Stats) *Violation {
 		R.Faults = op.Faults
 		R.fpHits = map[int]int{}
 		R.Fired = nil
+		R.stderrFail, R.stderrN = op.StderrFailAt, 0
 		if op.Budget > 0 {
 			lisp.WithMaxSteps(op.Budget)(R.Env)
 		} else {
@@ -590,6 +599,11 @@ func (historyEngine) Run(ci any, st *Stats) *Violation {
 		}
 		panicFired := false
 		for _, f := range R.Fired {
+			if f == "stderr-error" {
+				st.Inc("fault_stderr_write_error_fired")
+				fired = true
+				continue
+			}
 			st.Inc("fault_fp_" + f + "_fired")
 			fired = true
 			if f == "panic" {
@@ -830,6 +844,7 @@ func (historyEngine) Shrink(ci any) []any {
 			func(o *HistOp) bool { ch := o.MaxTail != 0; o.MaxTail = 0; return ch },
 			func(o *HistOp) bool { ch := o.MaxAlloc != 0; o.MaxAlloc = 0; return ch },
 			func(o *HistOp) bool { ch := o.ReadFailAt != 0; o.ReadFailAt = 0; return ch },
+			func(o *HistOp) bool { ch := o.StderrFailAt != 0; o.StderrFailAt = 0; return ch },
 			func(o *HistOp) bool { ch := o.Chunk != 0; o.Chunk = 0; return ch },
 			func(o *HistOp) bool { ch := o.CancelAt > 1; o.CancelAt = 1; return ch },
 			func(o *HistOp) bool {
